@@ -141,7 +141,7 @@ _IDX = ("[C]", "[Ring1]", "[Ring2]", "[Branch1]", "[=Branch1]", "[#Branch1]", "[
         "[#Branch2]", "[O]", "[N]", "[=N]", "[=C]", "[#C]", "[S]", "[P]")
 
 
-def _constructive(rng, A, heavy, multi, L):
+def _constructive(rng, A, heavy, multi, L, low=()):
     """Grammar-aware string over the alphabet: ring symbols get index symbols computed so that the
     ring lands on a *chosen* earlier atom (the previous one, the root of the enclosing branch, an
     atom that already carries rings ...), branch symbols get the index of their actual body length,
@@ -151,15 +151,27 @@ def _constructive(rng, A, heavy, multi, L):
     Aset = set(A)
     idx = [s if s in Aset else None for s in _IDX]
     atoms = [rng.choice(heavy) for _ in range(rng.randint(1, 4))] + [rng.choice(multi or heavy)]
+    lowA = [x for x in low if x in Aset]
+    if lowA and rng.random() < 0.6:       # atoms of capacity 0 / 1 under the table in force (generator's hint)
+        atoms += [rng.choice(lowA) for _ in range(rng.randint(1, 2))]
     rings = [r for r in ("[Ring1]", "[=Ring1]", "[#Ring1]") if r in Aset]
     branches = [b for b in ("[Branch1]", "[=Branch1]", "[#Branch1]") if b in Aset]
     pr = rng.choice((0.15, 0.3, 0.5))
     pb = rng.choice((0.1, 0.2, 0.35))
     state = {"n": 0}
 
+    rings2 = [r for r in ("[Ring2]", "[=Ring2]") if r in Aset]
+
     def ring_to(cur, target):
         q = cur - target - 1
-        if not rings or q < 0 or q > 15 or idx[q] is None:
+        if q < 0:
+            return []
+        if q > 15 or (rings2 and rng.random() < 0.1):      # two index symbols: Q = 16 a + b
+            a, b = divmod(q, 16)
+            if not rings2 or a > 15 or idx[a] is None or idx[b] is None:
+                return []
+            return [rng.choice(rings2), idx[a], idx[b]]
+        if not rings or idx[q] is None:
             return []
         return [rng.choice(rings), idx[q]]
 
@@ -170,6 +182,8 @@ def _constructive(rng, A, heavy, multi, L):
             t = rng.random()
             if cur is not None and t < pr and state["n"] > 1:
                 cands = list(range(max(0, cur - 8), cur)) + roots[-2:] + [max(0, cur - 1)] * 2
+                if rng.random() < 0.15 and cur > 0:
+                    cands = list(range(0, cur))          # any earlier atom, other fragments included
                 w += ring_to(cur, rng.choice(cands))
             elif cur is not None and t < pr + pb and depth < 3 and branches:
                 inner = body(rng.randint(1, 6), depth + 1, roots + [cur])
@@ -182,10 +196,13 @@ def _constructive(rng, A, heavy, multi, L):
                 state["n"] += 1
         return w
 
-    return "".join(body(L, 0, []))
+    out = "".join(body(L, 0, []))
+    if rng.random() < 0.15:
+        out += "." + "".join(body(rng.randint(1, 8), 0, []))      # ring targets may lie in the first fragment
+    return out
 
 
-def alpha_strings(A, seed, count, maxlen):
+def alpha_strings(A, seed, count, maxlen, low=()):
     """Seeded strings over the sorted alphabet, biased to stay alive."""
     rng = random.Random(seed)
     A = sorted(A)
@@ -211,7 +228,7 @@ def alpha_strings(A, seed, count, maxlen):
             out.append(head + "".join(rng.choice(heavy * 2 + structural) for _ in range(L)))
             continue
         if v < 0.45:
-            out.append(_constructive(rng, A, heavy, multi, L))
+            out.append(_constructive(rng, A, heavy, multi, L, low))
             continue
         if v < 0.6:
             # ring / branch dense over a small sub-alphabet: rings closing onto nearby, already
@@ -360,7 +377,8 @@ def _execute_one(sf, op, pos, H, passive):
             else:
                 A = sorted(a[3], key=repr)
                 singles = tuple((s, outcome(sf.decoder, s)[:2]) for s in A if isinstance(s, str))
-                strs = alpha_strings([s for s in A if isinstance(s, str)], op["seed"], op["count"], op["maxlen"])
+                strs = alpha_strings([s for s in A if isinstance(s, str)], op["seed"], op["count"], op["maxlen"],
+                                     op.get("low", ()))
                 outs = tuple((s, outcome(sf.decoder, s)[:2]) for s in strs)
                 rec["r"] = ("ok", (a[:2], singles, outs), None)
         else:
